@@ -275,7 +275,7 @@ pub fn front(toks: Vec<Tok>) -> Vec<Tok> {
 /// The demultiplexer behind the real QUIC listener: one QUIC + HTTP/3 handshake per query (the client offers `h3` only), then a
 /// health-check request to see which channel answers.
 /// in : as c05_select (the ALPN token of a query is ignored)
-/// out: [996] | [2] | per query [9] unusable SNI | [0] no connection | [1, status of `CONNECT _check`]
+/// out: [996] | [2] | per query [9] unusable SNI | [0] no connection | [1, status of an unauthenticated `GET /`]
 pub fn front_quic(toks: Vec<Tok>) -> Vec<Tok> {
     use std::time::Duration;
     let f = toks[0].clone();
@@ -303,9 +303,15 @@ pub fn front_quic(toks: Vec<Tok>) -> Vec<Tok> {
             match crate::front::H3Client::connect(ep.addr, &sni).await {
                 None => out.push(vec![0]),
                 Some(mut c) => {
-                    let hs = vec![(b":method".to_vec(), b"CONNECT".to_vec()), (b":authority".to_vec(), b"_check".to_vec()), (b"user-agent".to_vec(), b"verif".to_vec())];
+                    let hs = vec![
+                        (b":method".to_vec(), b"GET".to_vec()),
+                        (b":scheme".to_vec(), b"https".to_vec()),
+                        (b":authority".to_vec(), sni.as_bytes().to_vec()),
+                        (b":path".to_vec(), b"/".to_vec()),
+                        (b"user-agent".to_vec(), b"verif".to_vec()),
+                    ];
                     let mut st = 0u128;
-                    if let Some(id) = c.request(&hs, false) {
+                    if let Some(id) = c.request(&hs, true) {
                         c.drive(Duration::from_secs(2), |x| x.streams[&id].headers.is_some() || x.streams[&id].finished || x.is_shut()).await;
                         st = c.streams[&id].status() as u128;
                     }
